@@ -245,6 +245,7 @@ fn c11_bytes_mul_clamp() {
 }
 
 
+
 // vacuity canary: must FAIL; the runner treats a passing canary as a broken tool chain.
 // @unit tier=q prop=CANARY
 #[kani::proof]
